@@ -449,7 +449,8 @@ def _try_inline(func: ast.AST, name: str, defs: dict) -> bool:
         return False  # used outside the statements that follow the definition in its block
     # the object the local names must not be mutated through the local: `d = {...}; d[k] = v` / `d.update(..)` / `d += ..`
     use_ids = {id(u) for u in uses}
-    for n in _own_nodes(func):
+    is_path = isinstance(expr, (ast.Name, ast.Attribute)) and _is_pure(expr)  # an alias of something that exists: writing through it is writing there
+    for n in ([] if is_path else _own_nodes(func)):
         if isinstance(n, (ast.Subscript, ast.Attribute)) and isinstance(n.ctx, (ast.Store, ast.Del)) and id(n.value) in use_ids:
             return False
         if isinstance(n, ast.Call) and isinstance(n.func, ast.Attribute) and id(n.func.value) in use_ids and n.func.attr in LOCAL_MUTATORS:
